@@ -8,3 +8,6 @@ pub mod scm;
 pub mod words;
 pub mod report;
 pub mod textspec;
+pub mod eval;
+pub mod trees;
+pub mod directed;
